@@ -2,19 +2,20 @@
  'kind': 'proof', 'mode': 'legacy',
  'functions': ['bsearch'],
  'clauses': 'for every nmemb (0 included), the given element size and ANY comparator results: terminates, every compar call gets (key, pointer to an element inside the array) - so nothing outside the array is ever handed out for dereferencing -, result is NULL or a pointer to an element of the array; array and key not modified by bsearch itself',
- 'params': {'SIZE': [3]}, 'timeout': 5, 'defines': ['BS_MAXBYTES=((size_t)1<<40)'],
+ 'params': {'SIZE': [3]}, 'timeout': 200, 'defines': ['BS_MAXBYTES=((size_t)1<<40)'],
  'params_thorough': {'SIZE': [1, 2, 3, 4, 5, 6, 7, 8, 9, 10, 11, 12, 13, 14, 15, 16, 17, 18, 19, 20, 21, 22, 23, 24, 25, 26, 27, 28, 29, 30, 31, 32]},
  'inject': [
-   {'file': 'compat/libc/stdlib/bsearch.c', 'func': 'bsearch', 'ghost': 'g_bl = 0; g_br = nmemb;', 'at': 'func-begin'},
+   {'file': 'compat/libc/stdlib/bsearch.c', 'func': 'bsearch', 'ghost': 'g_bl = 0; g_bd = nmemb;', 'at': 'func-begin'},
    {'file': 'compat/libc/stdlib/bsearch.c', 'func': 'bsearch', 'loop': 0, 'expect': 'left + size < right',
-    'assigns': 'left, right, mid, g_bl, g_br, g_bm, g_sr_idx',
+    'assigns': 'left, right, mid, g_bl, g_bd, g_bm, g_sr_idx',
     'invariants': ['__CPROVER_same_object(left, base) && __CPROVER_same_object(right, base)',
-                   'g_bl < g_br && g_br <= nmemb',
-                   '(size_t)__CPROVER_POINTER_OFFSET(left) == g_bl * size && (size_t)__CPROVER_POINTER_OFFSET(right) == g_br * size'],
-    'decreases': 'g_br - g_bl'},
-   {'file': 'compat/libc/stdlib/bsearch.c', 'func': 'bsearch', 'ghost': 'g_bm = g_bl + ((g_br - g_bl) >> 1); g_sr_idx = g_bm;',
+                   'g_bd >= 1 && g_bl < nmemb && g_bd <= nmemb - g_bl',
+                   '(size_t)__CPROVER_POINTER_OFFSET(left) == g_bl * size',
+                   '(size_t)(__CPROVER_POINTER_OFFSET(right) - __CPROVER_POINTER_OFFSET(left)) == g_bd * size'],
+    'decreases': 'g_bd'},
+   {'file': 'compat/libc/stdlib/bsearch.c', 'func': 'bsearch', 'ghost': 'g_bm = g_bl + (g_bd >> 1); g_sr_idx = g_bm;',
     'at': 'after', 'anchor': 'mid = left + ((right - left) / (size << 1) * size);'},
-   {'file': 'compat/libc/stdlib/bsearch.c', 'func': 'bsearch', 'ghost': 'if (right == mid) g_br = g_bm; else g_bl = g_bm;',
+   {'file': 'compat/libc/stdlib/bsearch.c', 'func': 'bsearch', 'ghost': 'if (right == mid) { g_bd = g_bd >> 1; } else { g_bd = g_bd - (g_bd >> 1); g_bl = g_bm; }',
     'at': 'body-end', 'loop': 0},
    {'file': 'compat/libc/stdlib/bsearch.c', 'func': 'bsearch', 'ghost': 'g_sr_idx = g_bl;',
     'at': 'before', 'anchor': 'if (compar(left, key) == 0)'},
@@ -31,8 +32,10 @@
 #ifndef BS_MAXBYTES
 #define BS_MAXBYTES VC_MAXOBJ
 #endif
-/* ghost: element indices of left, right, mid (offsets are index * size) */
-static size_t g_bl, g_br, g_bm;
+/* ghost: element index of left and mid, element count between left and right (byte offsets are these times size;
+ * `right` itself is never needed as a product, which keeps the step obligation within reach of the SAT back end
+ * for element sizes that are not powers of two) */
+static size_t g_bl, g_bd, g_bm;
 #define bsearch vc_bsearch
 #define upper_bound vc_upper_bound
 #define lower_bound vc_lower_bound
@@ -47,7 +50,7 @@ void harness(void)
     WIT(size_t, k);
     size_t size = SIZE;
 #ifdef WITNESS_MODE
-    __CPROVER_assume(nmemb * size <= 6);
+    __CPROVER_assume(nmemb <= 6 / SIZE);
 #else
     __CPROVER_assume(nmemb <= BS_MAXBYTES / SIZE);
 #endif
